@@ -139,6 +139,19 @@ func (g *mgen) arrVars() []mvar {
 }
 
 func (g *mgen) constant(ty mtype) string {
+	if ty.bits >= 2 && g.ch(6) == 0 {
+		// boundary constants: negative literals, and the same 32-bit patterns
+		// (top bit set) once as a signed and once as an unsigned value
+		if ty.kind == 1 {
+			c := []string{"-1", "-2", "-1", fmt.Sprint(-(int64(1) << uint(min(ty.bits, 63)-1))), fmt.Sprint(int64(1)<<uint(min(ty.bits, 63)-1) - 1)}
+			return c[g.ch(len(c))]
+		}
+		c := []string{fmt.Sprint(uint64(1)<<uint(min(ty.bits, 63)) - 1)}
+		if ty.bits >= 32 {
+			c = append(c, "0xffffffff", "0x80000000", "0xfffffffe", "0xffffffff")
+		}
+		return c[g.ch(len(c))]
+	}
 	max := uint64(1) << uint(min(ty.bits, 16))
 	if ty.kind == 1 {
 		max = uint64(1) << uint(min(ty.bits-1, 15))
@@ -155,6 +168,33 @@ func (g *mgen) constant(ty mtype) string {
 		return fmt.Sprint(max - 1)
 	}
 	return fmt.Sprint(uint64(g.ch(int(max))))
+}
+
+// bareLiteral is an untyped literal that fits ty (the compiler stores it at 32
+// or 64 bits and re-sizes it where it is used: sign-extended for signed,
+// zero-extended for unsigned destinations).
+func (g *mgen) bareLiteral(ty mtype) string {
+	if ty.kind == 2 {
+		return []string{"true", "false"}[g.ch(2)]
+	}
+	if ty.bits < 32 {
+		// the compiler types a bare literal int32/uint32 and refuses to assign it
+		// to a narrower variable: narrow destinations get a converted constant
+		return fmt.Sprintf("%s(%s)", ty, g.constant(ty))
+	}
+	if ty.kind == 1 {
+		return []string{"-1", "-1", "-2", "0", "1", "300", "-2147483648", "2147483647"}[g.ch(8)]
+	}
+	return []string{"0", "1", "0xffff", "300", "0xffffffff", "0xffffffff", "0x80000000", "0xfffffffe"}[g.ch(8)]
+}
+
+// armValue is the value assigned in one arm of an if/else: an expression or a
+// bare literal (a phi of two constants is what the streamer re-sizes).
+func (g *mgen) armValue(ty mtype) string {
+	if g.ch(2) == 0 {
+		return g.bareLiteral(ty)
+	}
+	return g.expr(ty, 1)
 }
 
 // expr produces an expression of integer type ty.
@@ -249,7 +289,33 @@ func (g *mgen) boolExpr(depth int) string {
 }
 
 func (g *mgen) stmt(depth int) {
-	switch g.ch(14) {
+	switch g.ch(15) {
+	case 14: // the same 32-bit constant pattern as a signed and as an unsigned wide value
+		k := g.ch(3)
+		sw := []int{64, 33, 64}[g.ch(3)]
+		y, m := g.fresh("y"), g.fresh("m")
+		ys, ms := mtype{kind: 1, bits: sw}, mtype{kind: 0, bits: sw}
+		first, second := func() {
+			g.emit("var %s %s", y, ys)
+			g.emit("if %s {", g.boolExpr(1))
+			g.emit("\t%s = %s", y, []string{"-1", "-2", "-2147483648"}[k])
+			g.emit("} else {")
+			g.emit("\t%s = %s", y, []string{"300", "1", "0"}[g.ch(3)])
+			g.emit("}")
+		}, func() {
+			g.emit("var %s %s", m, ms)
+			g.emit("if %s {", g.boolExpr(1))
+			g.emit("\t%s = %s", m, []string{"0xffffffff", "0xfffffffe", "0x80000000"}[k])
+			g.emit("} else {")
+			g.emit("\t%s = %s", m, []string{"0xffff", "1", "0"}[g.ch(3)])
+			g.emit("}")
+		}
+		if g.ch(2) == 0 {
+			first, second = second, first
+		}
+		first()
+		second()
+		g.vars = append(g.vars, mvar{name: y, typ: ys}, mvar{name: m, typ: ms})
 	case 0, 1, 2: // new variable
 		ty := g.intType()
 		name := g.fresh("v")
@@ -290,7 +356,7 @@ func (g *mgen) stmt(depth int) {
 			v := w[g.ch(len(w))]
 			g.emit("if %s {", g.boolExpr(1))
 			g.ind++
-			g.emit("%s = %s", v.name, g.expr(v.typ, 1))
+			g.emit("%s = %s", v.name, g.armValue(v.typ))
 			if g.ch(2) == 0 {
 				nv := len(g.vars)
 				g.stmt(depth - 1)
@@ -300,7 +366,7 @@ func (g *mgen) stmt(depth int) {
 			if g.ch(2) == 0 {
 				g.emit("} else {")
 				g.ind++
-				g.emit("%s = %s", v.name, g.expr(v.typ, 1))
+				g.emit("%s = %s", v.name, g.armValue(v.typ))
 				g.ind--
 			}
 			g.emit("}")
